@@ -207,6 +207,7 @@ namespace
         bool        has_composable = false, has_tracker = false, is_fallback = false;
         size_t      min_align      = 1;     // aligned_allocator raises alignments to this
         bool        any_erased     = false; // count==1 arrays become nodes (documented dispatch)
+        int         tracker_leaf   = -1;    // >= 0: the tracker wraps only this leaf (sees only its operations)
         size_t      thresholds[2]  = {0, 0};
         virtual ~IComp() {}
         virtual void* alloc(const Req&)                = 0;
@@ -339,7 +340,7 @@ namespace
         // MinLeaf and binary_segregator report the traits default (alignof(max_align_t))
         size_t mina16 = mina > alignof(std::max_align_t) ? alignof(std::max_align_t) : mina;
         std::unique_ptr<IComp> c;
-        switch (idx % 20)
+        switch (idx % 22)
         {
         case 0:
             c.reset(new CompOf<FB01>("fallback<L0,L1>", 1, L0(l(0)), L1(l(1))));
@@ -468,6 +469,32 @@ namespace
             c.reset(new CompOf<A>("segregator<threshold<MinLeaf>,L1>", 1,
                                   fm::threshold_segregatable<MinLeaf>(t0, MinLeaf(l(0))), L1(l(1))));
             c->thresholds[0] = t0;
+            break;
+        }
+        case 20:
+        {
+            // the tracked allocator is the *default* of a fallback: it is asked to take back blocks
+            // the fallback served and must not tell its tracker about the ones it refuses
+            using A = fm::fallback_allocator<fm::tracked_allocator<RecTracker, L0>, L1>;
+            c.reset(new CompOf<A>("fallback<tracked<L0>,L1>", 2,
+                                  fm::tracked_allocator<RecTracker, L0>(RecTracker{}, L0(l(0))), L1(l(1))));
+            c->has_tracker  = true;
+            c->is_fallback  = true;
+            c->tracker_leaf = 0;
+            break;
+        }
+        case 21:
+        {
+            using A = fm::fallback_allocator<fm::aligned_allocator<fm::tracked_allocator<RecTracker, L0>>,
+                                             fm::fallback_allocator<L1, L2>>;
+            c.reset(new CompOf<A>("fallback<aligned<tracked<L0>>,fallback<L1,L2>>", 3,
+                                  fm::aligned_allocator<fm::tracked_allocator<RecTracker, L0>>(
+                                      mina, fm::tracked_allocator<RecTracker, L0>(RecTracker{}, L0(l(0)))),
+                                  fm::fallback_allocator<L1, L2>(L1(l(1)), L2(l(2)))));
+            c->has_tracker  = true;
+            c->is_fallback  = true;
+            c->tracker_leaf = 0;
+            c->min_align    = 1; // only the default branch raises alignments
             break;
         }
         default:
@@ -648,7 +675,11 @@ namespace
                 size_t key = r.array ? r.bytes() : r.size;
                 (key <= c->thresholds[0] ? n_below : n_above)++;
             }
-            if (c->has_tracker)
+            bool tracked_here = c->has_tracker
+                                && (c->tracker_leaf < 0 || a.owner == env.leaves[c->tracker_leaf].owner);
+            if (c->has_tracker && !tracked_here && track.size() != tr0)
+                fail("tracker-foreign", "tracker was told about an allocation its allocator did not serve");
+            if (tracked_here)
             {
                 if (track.size() != tr0 + 1)
                     fail("tracker-count", "tracker saw " + std::to_string(track.size() - tr0)
@@ -656,7 +687,7 @@ namespace
                 else
                 {
                     auto& t = track.back();
-                    if (!t.alloc || t.p != p || t.size != r.size || (r.array && (!t.array || t.count != r.count)))
+                    if (!t.alloc || t.p != p || (c->tracker_leaf < 0 && (t.size != r.size || (r.array && (!t.array || t.count != r.count)))))
                         fail("tracker-args", "tracker allocation event does not carry the user-level parameters");
                     if (t.seq < a.seq)
                         fail("tracker-order", "allocation tracked before the forwarded call returned");
@@ -715,7 +746,11 @@ namespace
             }
             if (d.owner != l.leaf_owner)
                 fail("wrong-leaf", "memory was released to a different leaf than the one that served it");
-            if (c->has_tracker)
+            bool tracked_here = c->has_tracker
+                                && (c->tracker_leaf < 0 || l.leaf_owner == env.leaves[c->tracker_leaf].owner);
+            if (c->has_tracker && !tracked_here && track.size() != tr0)
+                fail("tracker-foreign", "tracker was told about the release of memory its allocator did not serve");
+            if (tracked_here)
             {
                 if (track.size() != tr0 + 1)
                     fail("tracker-count", "tracker saw " + std::to_string(track.size() - tr0)
@@ -723,9 +758,11 @@ namespace
                 else
                 {
                     auto& t = track.back();
-                    if (t.alloc || t.p != l.p || t.size != l.r.size)
+                    if (t.alloc || t.p != l.p || (c->tracker_leaf < 0 && t.size != l.r.size))
                         fail("tracker-args", "tracker deallocation event does not carry the user-level parameters");
-                    if (!l.r.composable && t.seq > d.seq)
+                    // (documented order: before the forwarded call for the throwing interface, after a
+                    // successful try_; a tracker below a fallback is reached through the try_ path)
+                    if (!l.r.composable && c->tracker_leaf < 0 && t.seq > d.seq)
                         fail("tracker-order", "deallocation tracked after the forwarded call");
                 }
             }
@@ -889,7 +926,7 @@ namespace
             if (prop == "C09")
                 env.leaves[0].cap_bytes = P(5) % 3 ? size_t(1) << 22 : caps[P(5) % 6];
             env.leaves[3].cap_bytes = size_t(1) << 24;
-            if (P(7) % 3 == 1 && P(0) % 20 != 15)
+            if (P(7) % 3 == 1 && P(0) % 22 != 15)
             {
                 // the maxima of the leaves move with use (documented for static_allocator,
                 // iteration_allocator, memory_stack). Recorded finding F16: memory_resource_adapter
@@ -898,11 +935,11 @@ namespace
                     env.leaves[i].shrinking = true;
                 ci.classes.insert("moving-maxima");
             }
-            if (P(7) == 998 && P(0) % 20 == 15)
+            if (P(7) == 998 && P(0) % 22 == 15)
                 env.leaves[0].shrinking = true; // probe program of F16 only
-            if (P(0) % 20 == 15 && P(7) == 998)
+            if (P(0) % 22 == 15 && P(7) == 998)
                 env.leaves[0].cap_bytes = 30000;
-            else if (P(0) % 20 == 15)
+            else if (P(0) % 22 == 15)
             {
                 // memory_resource_adapter: a small max_node_size so that requests straddle it
                 static const size_t mx[] = {64, 100, 256, 1000, size_t(1) << 22};
@@ -1014,8 +1051,8 @@ namespace
             if (spec.property == "C08" && !q.params.empty())
             {
                 // only the fallback compositions
-                static const unsigned fb[] = {0, 1, 2, 5, 12, 13, 19};
-                q.params[0] = fb[q.params[0] % 7];
+                static const unsigned fb[] = {0, 1, 2, 5, 12, 13, 19, 20, 21};
+                q.params[0] = fb[q.params[0] % 9];
             }
             Runner r(spec.property, q, ci);
             return r.run();
